@@ -1,147 +1,164 @@
-#!/usr/bin/env python
 """
-C20 / clause "every other Authorization value - ... malformed or unsupported
-scheme - is refused and never obtains the protected result".
-
-check_auth() raises (ValueError / KeyError / IndexError / binascii.Error)
-instead of returning False for Authorization values that parseAuthorization()
-cannot split or does not know.  In the request-filter idiom used by the
-library's own circuits.web.main.Authentication component (and
-examples/web/authdemo.py)
-
-    if not check_auth(...):
-        event.stop()
-        return digest_auth(...)
-
-the exception skips event.stop(), the manager carries on with the remaining
-'request' handlers and the protected controller runs for the unauthenticated
-request; response headers it sets (e.g. a Set-Cookie) even reach the client
-on the 500 answer.
+C20 / sessions: the client fingerprint of a peer that connects over IPv6 has
+no address in it.  wrappers.Request unpacks sock.getpeername() as a 2-tuple;
+an AF_INET6 peer name is a 4-tuple, the ValueError is taken for "AF_UNIX" and
+request.remote.ip becomes None for EVERY IPv6 peer.  sessions.who() then hashes
+'None\\n<User-Agent>', so a session id stolen from one address is honoured from
+any other address (same User-Agent) and the stored data is handed out.
 """
-import base64
+import re
 import socket
 import sys
 import time
 
-from circuits.web import Controller, Server
+from circuits import BaseComponent
+from circuits.net.events import close
+from circuits.net.sockets import TCP6Server, TCPServer
+from circuits.web import Controller, Sessions
+from circuits.web.dispatchers import Dispatcher
+from circuits.web.http import HTTP
+from circuits.web.sessions import verify_session, create_session
+from circuits.web.wrappers import Request
 from circuits.web.headers import Headers
-from circuits.web.main import Authentication
-from circuits.web.tools import check_auth
-from circuits.web.wrappers import Request, Response
-
-REALM = 'Secure Area'
-USERS = {'admin': 'admin'}
-calls = []
-
-
-class Root(Controller):
-    def index(self):
-        # the protected resource: has a side effect and hands out a token
-        calls.append(self.request.headers.get('Authorization'))
-        self.response.headers['X-Account-Token'] = 'TOKEN-OF-ADMIN'
-        return 'SECRET'
-
-
-def b64(s):
-    return base64.b64encode(s.encode()).decode()
-
-
-FULL = 'Digest username="admin", realm="Secure Area", nonce="n", uri="/", response="0"'
-BAD = [
-    'x',                              # no space, no scheme
-    'Basic',                          # no space
-    'Foo bar',                        # unknown scheme
-    'Negotiate abcdef',               # unknown scheme
-    'Basic ' + b64('adminadmin'),     # no colon
-    'Basic !!!',                      # bad base64
-    'Digest',                         # no space
-    'Digest username',                # no '='
-    'Digest username=',               # empty value
-    # complete field sets, unsupported variants (raise KeyError/AttributeError/NotImplementedError)
-    FULL + ', algorithm="SHA1"',
-    FULL + ', algorithm="bogus"',
-    FULL + ', qop="bogus", nc="1", cnonce="c"',
-    FULL + ', qop="auth-int", nc="1", cnonce="c"',
-    FULL + ', algorithm="MD5-sess"',
-]
 
 violations = []
 
+# ---------------------------------------------------------------- unit level
+class FakeSock:
+    def __init__(self, peer):
+        self._peer = peer
 
-def lab(a):
-    a = repr(a)
-    return a if len(a) <= 40 else '...' + a[-37:]
-
-
-# ---- 1. the function itself ------------------------------------------------
-print('--- check_auth() called directly')
-for auth in BAD:
-    req = Request(None, 'GET', 'http', '/', (1, 1), '', headers=Headers([('Host', 'x'), ('Authorization', auth)]))
-    res = Response(req)
-    try:
-        r = check_auth(req, res, REALM, USERS, str)
-        print('%-40s -> %r' % (lab(auth), r))
-        if r:
-            violations.append('check_auth(%r) is truthy' % auth)
-    except Exception as e:
-        print('%-40s -> raises %s (documented contract: return False)' % (lab(auth), type(e).__name__))
-
-# ---- 2. the library's Authentication filter in front of a controller -------
-app = Server(('127.0.0.1', 0))
-Authentication(realm=REALM).register(app)   # users: admin / md5('admin') (Digest)
-Root().register(app)
-app._running = True
-for _ in range(20):
-    app.tick(0)
+    def getpeername(self):
+        return self._peer
 
 
-def exchange(auth):
-    s = socket.create_connection(('127.0.0.1', app.port))
-    h = 'GET / HTTP/1.1\r\nHost: x\r\nConnection: close\r\n'
-    if auth is not None:
-        h += 'Authorization: %s\r\n' % auth
-    s.sendall((h + '\r\n').encode())
-    s.setblocking(False)
-    data = b''
-    deadline = time.time() + 3
-    while time.time() < deadline:
+class FakeServer:
+    host, port, secure = '::', 8000, False
+
+
+def mkreq(peer, agent):
+    h = Headers()
+    h['Host'] = 'localhost'
+    h['User-Agent'] = agent
+    return Request(FakeSock(peer), headers=h, server=FakeServer())
+
+
+victim = mkreq(('2001:db8::1', 40000, 0, 0), 'Mozilla/5.0')
+thief = mkreq(('2001:db8:bad::666', 40001, 0, 0), 'Mozilla/5.0')
+print('unit: victim remote.ip = %r, thief remote.ip = %r' % (victim.remote.ip, thief.remote.ip))
+sid = create_session(victim)
+got = verify_session(thief, sid)
+print('unit: victim sid  %s' % sid)
+print('unit: thief gets  %s' % got)
+if got == sid:
+    violations.append('unit: a request from another IPv6 address was given the same session id')
+
+# ---------------------------------------------------------------- live server
+class Root(Controller):
+    def index(self):
+        return 'ip=%r secret=%s' % (self.request.remote.ip, self.session.get('secret'))
+
+    def put(self):
+        with self.session as s:
+            s['secret'] = 'S3CR3T'
+        return 'stored'
+
+
+class WebServer(BaseComponent):
+    """What circuits.web.Server does, with a selectable transport"""
+
+    channel = 'web'
+
+    def __init__(self, transport, bind):
+        super().__init__(channel='web')
+        self.server = transport(bind, channel='web').register(self)
+        self.http = HTTP(self, channel='web').register(self)
+        Dispatcher(channel='web').register(self.http)
+
+    host = property(lambda self: self.server.host)
+    port = property(lambda self: self.server.port)
+    secure = property(lambda self: False)
+    display_banner = False
+
+
+def http_get(app, family, src, dst, path, cookie=None):
+    c = socket.socket(family)
+    c.settimeout(3)
+    if src is not None:
+        c.bind(src)
+    c.connect(dst)
+    req = 'GET %s HTTP/1.1\r\nHost: localhost\r\nUser-Agent: Mozilla/5.0\r\nConnection: close\r\n' % path
+    if cookie:
+        req += 'Cookie: %s\r\n' % cookie
+    c.sendall((req + '\r\n').encode())
+    c.setblocking(False)
+    buf = b''
+    end = time.time() + 3
+    while time.time() < end:
         app.tick(0.01)
         try:
-            d = s.recv(65536)
+            d = c.recv(65536)
+            if not d:
+                break
+            buf += d
         except BlockingIOError:
-            continue
-        except OSError:
-            break
-        if not d:
-            break
-        data += d
-    s.close()
+            pass
+    c.close()
+    return buf.decode('latin-1')
+
+
+def scenario(label, transport, bind, first, second):
+    app = WebServer(transport, bind)
+    Sessions().register(app)
+    Root().register(app)
+    app._running = True
+    for _ in range(20):
+        app.tick(0.01)
+    port = app.server._sock.getsockname()[1]
+    fam1, src1, host1 = first
+    fam2, src2, host2 = second
+    r1 = http_get(app, fam1, src1, (host1, port), '/put')
+    m = re.search(r'Set-Cookie: (circuits=[^;\r]+)', r1)
+    if not m:
+        print('%s: no session cookie?\n%s' % (label, r1))
+        return None
+    cookie = m.group(1)
+    r2 = http_get(app, fam2, src2, (host2, port), '/', cookie=cookie)
+    body = r2.split('\r\n\r\n', 1)[-1]
+    m2 = re.search(r'Set-Cookie: (circuits=[^;\r]+)', r2)
+    print('%s: first client stored a secret under %s' % (label, cookie))
+    print('%s: second client (other address, same User-Agent, stolen cookie) -> %r, cookie %s'
+          % (label, body, 'unchanged' if m2 and m2.group(1) == cookie else 'fresh'))
+    app.fire(close(), 'web')
     for _ in range(10):
-        app.tick(0)
-    return data.decode('latin1')
+        app.tick(0.01)
+    return 'S3CR3T' in body
 
 
-print('--- circuits.web.main.Authentication + Controller on loopback')
-for auth in [None, 'Digest username="admin"'] + BAD:
-    before = len(calls)
-    out = exchange(auth)
-    status = out.split('\r\n', 1)[0]
-    ran = len(calls) > before
-    token = 'TOKEN-OF-ADMIN' in out
-    body = 'SECRET' in out
-    print('%-40s -> %-36s protected handler ran: %-5s token header sent: %-5s body sent: %s' % (lab(auth), status, ran, token, body))
-    if ran or token or body:
-        violations.append('Authorization %r: protected handler ran=%s, token header delivered=%s, body delivered=%s' % (auth, ran, token, body))
+# control: over IPv4 the address is part of the fingerprint
+try:
+    leaked = scenario('ipv4', TCPServer, ('127.0.0.1', 0),
+                      (socket.AF_INET, ('127.0.0.1', 0), '127.0.0.1'),
+                      (socket.AF_INET, ('127.0.0.2', 0), '127.0.0.1'))
+    if leaked:
+        violations.append('ipv4: session data returned to another address')
+except OSError as e:
+    print('ipv4 control skipped: %s' % e)
 
-app.stop()
-for _ in range(10):
-    app.tick(0)
+# IPv6 listener (dual stack): peers ::1 and ::ffff:127.0.0.1 are two addresses
+try:
+    leaked = scenario('ipv6', TCP6Server, ('::', 0),
+                      (socket.AF_INET6, None, '::1'),
+                      (socket.AF_INET, None, '127.0.0.1'))
+    if leaked:
+        violations.append('ipv6: session data stored from ::1 was returned to a request from ::ffff:127.0.0.1')
+except OSError as e:
+    print('ipv6 live part skipped (no IPv6 here): %s' % e)
 
 if violations:
-    print()
-    print('VIOLATION: requests without verifying credentials reached the protected resource:')
+    print('VIOLATION (C20, session bound to the client fingerprint):')
     for v in violations:
-        print('  -', v)
+        print('  - ' + v)
     sys.exit(1)
-print('OK: every unverifiable Authorization value was refused before the protected handler')
+print('OK: a session id presented from another address gets a fresh id')
 sys.exit(0)
